@@ -300,3 +300,5 @@ _patch('C06', 'level_text', '68 real op handlers are tied to the effect table en
 _patch('C17', 'level_text', 'a loaded module enters the cache under its resolved path;', 'a loaded module enters the cache under its resolved path, which is every segment of the import path in order joined by "/" (importpath unit: the real Vm::full_import_path over character sequences);')
 _patch('C17', 'level_note', 'path resolution (cache-key collisions),', 'path resolution beyond the cache key (the file-system lookup),')
 _patch('C15', 'level_text', 'the parser keeps its loop depth balanced', 'the compiler limits are diagnostics (limitsc unit: make_constant / emit_constant / add_capture return an index that names exactly the constant or capture asked for, or record a diagnostic; the u8 capture counter cannot wrap); the parser keeps its loop depth balanced')
+_patch('C18', 'level_text', 'Fiber::print_error looks each line up', 'e.backTrace (the real Fiber::error_backtrace / finish_unwind, iterator chain rewritten to its loop, R13c) has one line per frame from the raise down to the catching frame, innermost first, each computed from the ip pause_unwind saved, at the byte before it; Fiber::print_error looks each line up')
+_patch('C18', 'level_note', 'Not decided: the text of the traceback (frame_line strings)', 'Not decided: the text of each line (frame_line / writeln! formatting: which frame, ip and code offset it is computed from IS decided)')
